@@ -3,9 +3,32 @@
    return: the name, group, and type-specific metadata that were given. *)
 From Coq Require Import List ZArith Bool Lia.
 From Coq.Init Require Import Byte.
-From Sif Require Import Bytes BytesFacts Store Format Image Meta MetaFacts InvSet InvCreate SignFacts.
+From Sif Require Import Bytes BytesFacts Store Format Image Meta MetaFacts InvSet InvAdd InvCreate SignFacts.
 Import ListNotations.
 Local Open Scope Z_scope.
+
+(* adding (or creating with) a primary system partition for architecture `name` makes
+   PrimaryArch() answer `name`; any other object leaves the answer as it was *)
+Theorem primary_arch_of_new_partition h h' di fs name :
+  opt_partition (di_type di) fs PartPrimSys name = Some (di_md di) ->
+  h_arch h' = new_arch h di -> primary_arch h' = name.
+Proof.
+  intros O E. unfold opt_partition in O.
+  destruct (Z.eqb_spec (di_type di) DataPartition) as [T|]; [|discriminate]. cbn [negb] in O.
+  destruct (bytes_eqb (get_sif_arch name) arch_unknown) eqn:U; [discriminate|].
+  inversion O as [M]. apply primary_arch_roundtrip.
+  - intro C. rewrite C, bytes_eqb_refl in U. discriminate.
+  - rewrite E. unfold new_arch. rewrite <- M. now rewrite Z.eqb_refl.
+Qed.
+
+Theorem primary_arch_unchanged h h' di :
+  (forall fs a, di_md di <> MdPart fs PartPrimSys a) ->
+  h_arch h' = new_arch h di -> primary_arch h' = primary_arch h.
+Proof.
+  intros N E. unfold primary_arch. rewrite E. unfold new_arch.
+  destruct (di_md di) as [|fs pt a| | |] eqn:M; try reflexivity.
+  destruct (Z.eqb_spec pt PartPrimSys) as [->|]; [exfalso; now apply (N fs a)|reflexivity].
+Qed.
 
 Section WithDigest.
 Variable sha256 : list byte -> list byte.
